@@ -47,6 +47,7 @@ struct Episode<'a> {
     n_vec: usize,
     n_move: usize,
     n_thread: usize,
+    n_drop_panic: usize,
     getters_seen: std::collections::BTreeSet<(usize, usize)>,
 }
 
@@ -66,6 +67,7 @@ fn prop_of(op: &Op) -> &'static str {
         | Op::Unpack { .. }
         | Op::Move { .. } => "C04",
         Op::Convert { .. } | Op::VecConvert { .. } => "C05",
+        Op::ConvertDropPanic { .. } => "C06",
         Op::ThreadShare { .. } | Op::ThreadSend { .. } => "C14",
         Op::Drop { .. } => "C06",
         Op::Clone { .. } | Op::CloneFrom { .. } | Op::ClonePanic { .. } => "C16",
@@ -114,7 +116,7 @@ impl<'a> Episode<'a> {
             }
         };
         report.count("ops_executed", 1);
-        let expect_panic = matches!(op, Op::ClonePanic { .. });
+        let expect_panic = matches!(op, Op::ClonePanic { .. } | Op::ConvertDropPanic { .. });
         if let Some(p) = &out.panicked {
             if !expect_panic {
                 self.finding(report, prop, "generated-code-panicked", p.clone());
@@ -541,6 +543,7 @@ fn new_episode<'a>(drv: &'a mut dyn Drv, meta: &'a Meta, episode: u64) -> Episod
         n_vec: 0,
         n_move: 0,
         n_thread: 0,
+        n_drop_panic: 0,
         getters_seen: Default::default(),
     }
 }
@@ -767,7 +770,9 @@ fn run_episode(drv: &mut dyn Drv, meta: &Meta, args: &RunArgs, episode: u64, rep
         } else if args.threads && rng.chance(1, 4) {
             23
         } else {
-            rng.below(24)
+            let c = rng.below(25);
+            // (23 is the thread operation, only drawn above)
+            if c == 23 { 24 } else { c }
         };
         let what;
         let prop;
@@ -971,6 +976,80 @@ fn run_episode(drv: &mut dyn Drv, meta: &Meta, args: &RunArgs, episode: u64, rep
                 ep.slots[slot] = Some(SlotModel { variant: tvi, fields });
                 what = "after a conversion to the next variant";
                 prop = "C05";
+            }
+            // ---- conversion during which a removed value's destructor panics ---------------------
+            24 if args.drop_panics => {
+                let candidates: Vec<(usize, usize)> = live
+                    .iter()
+                    .copied()
+                    .filter_map(|s| {
+                        let m = ep.slots[s].as_ref().unwrap();
+                        if m.variant + 1 >= nvariants {
+                            return None;
+                        }
+                        let tv = &meta.variants[m.variant + 1];
+                        let sv = &meta.variants[m.variant];
+                        if !tv.minus.iter().all(|k| matches!(m.fields[*k], FState::Val { .. })) {
+                            return None;
+                        }
+                        // destructors of instrumented values that the conversion runs
+                        let points: usize = tv.minus.iter().map(|k| sv.fields[*k].clone_points).sum();
+                        if points == 0 || !ep.readable_as_a_whole(s) {
+                            None
+                        } else {
+                            Some((s, points))
+                        }
+                    })
+                    .collect();
+                if candidates.is_empty() {
+                    continue;
+                }
+                let (slot, points) = *rng.pick(&candidates);
+                let src = ep.slots[slot].clone().unwrap();
+                let tv = &meta.variants[src.variant + 1];
+                let ids: Vec<u64> = tv.plus.iter().map(|_| ep.fresh()).collect();
+                let form = rng.below(2) as u8;
+                let k = rng.range(1, points);
+                let all_serials = ep.serials_of(slot);
+                let out = match ep.exec(Op::ConvertDropPanic { slot, form, ids: ids.clone(), k }, report) {
+                    Some(o) => o,
+                    None => break,
+                };
+                report.count("drop_panics_injected", 1);
+                if out.panicked.is_none() {
+                    ep.finding(report, "C06", "injected-destructor-panic-swallowed", format!("conversion {}->{} form {} countdown {} of {}", src.variant, src.variant + 1, form, k, points));
+                }
+                // The conversion consumed the record and unwound. No value may have died twice
+                // (a second death is a ledger event of its own, drained by `exec`), and the
+                // removed values, which the conversion had read out, must all be dead. What the
+                // *new* record would have held (carried-over and supplied values) is leaked by
+                // Rust itself: a return value is not dropped when a local's destructor panics
+                // at the end of the function (rust-lang/rust#47949). No property promises more
+                // under a panicking destructor, so those values are forgotten, not reported.
+                let sv = &meta.variants[src.variant];
+                let mut removed_serials: Vec<u64> = Vec::new();
+                for k in &tv.minus {
+                    if let FState::Val { serials, .. } = &src.fields[*k] {
+                        removed_serials.extend(serials.iter().copied());
+                    }
+                }
+                let _ = sv;
+                ep.expect_dropped(&removed_serials, "value removed by a conversion that unwound", "C06", report);
+                let leaked = ledger::forget(&all_serials);
+                report.count("values_leaked_by_rust_when_a_conversion_unwinds", leaked as u64);
+                ep.n_drop_panic += 1;
+                let plus_serials: Vec<u64> = tv
+                    .plus
+                    .iter()
+                    .enumerate()
+                    .filter(|(pi, k)| tv.fields[**k].tracked > 0 && (form == 0 || !tv.fields[**k].uninit) && *pi < ids.len())
+                    .flat_map(|(pi, k)| if tv.fields[*k].tracked == 2 { vec![ids[pi], ids[pi] + vtypes::PAIR_SERIAL_OFFSET] } else { vec![ids[pi]] })
+                    .collect();
+                let leaked = ledger::forget(&plus_serials);
+                report.count("values_leaked_by_rust_when_a_conversion_unwinds", leaked as u64);
+                ep.slots[slot] = None;
+                what = "after a conversion that unwound";
+                prop = "C06";
             }
             // ---- unpack ----------------------------------------------------------------------
             13 | 14 => {
@@ -1411,7 +1490,7 @@ fn run_episode(drv: &mut dyn Drv, meta: &Meta, args: &RunArgs, episode: u64, rep
         report.count("ledger.births", z1.births - zst0.births);
         report.count("ledger.deaths", z1.deaths - zst0.deaths);
         report.count("ledger.zero_size_births", z1.zst_births - zst0.zst_births);
-        if z1.zst_births - zst0.zst_births != z1.zst_deaths - zst0.zst_deaths {
+        if ep.n_drop_panic == 0 && z1.zst_births - zst0.zst_births != z1.zst_deaths - zst0.zst_deaths {
             let detail = format!(
                 "{} zero-size values with a destructor were made, {} were destroyed",
                 z1.zst_births - zst0.zst_births,
